@@ -6,6 +6,7 @@ import Pk.Score
 import Pk.Config
 import Pk.Tsvd
 import Pk.Names
+import Pk.Gram
 /-! Line-protocol driver for the Mathlib-free model: one request per line on stdin, one reply per
 line on stdout.  The harness (`/verif/harness`) sends the same cases to the real pykoop and diffs. -/
 open Pk
@@ -265,6 +266,25 @@ def cmdNames : P String := do
   withFit nx nu s fun _ => do
     pure ("ok\t" ++ "\t".intercalate (featureNamesOut s (nx, nu) fitEp given sym fmt callEp))
 
+def pRMat : P Gram.RMat := do
+  let r ← pNat; let c ← pNat
+  pMany r (pMany c pRat)
+
+def showRMat (A : Gram.RMat) : String :=
+  let w := match A with
+    | [] => 0
+    | r :: _ => r.length
+  s!"{A.length} {w} " ++ " ".intercalate (A.map fun r => " ".intercalate (r.map showRat))
+
+/-- `edmd <alpha> <Psi p×q> <Theta t×q>` : exact normal-equation solution with certificate -/
+def cmdEdmd : P String := do
+  let a ← pRat
+  let Psi ← pRMat
+  let Th ← pRMat
+  match Gram.edmd a Psi Th with
+  | none => pure "singular"
+  | some U => pure ("ok " ++ showRMat U)
+
 def intCells : Cells Int := ⟨0, Int.toNat, Int.ofNat⟩
 
 def pRaw : P (Raw Int) := do
@@ -320,6 +340,7 @@ def dispatch : P String := do
   | "regargs" => cmdRegArgs
   | "predict" => cmdPredict
   | "traj" => cmdTraj
+  | "edmd" => cmdEdmd
   | "tsvd" => cmdTsvd
   | "names" => cmdNames
   | "config" => cmdConfig
